@@ -304,6 +304,9 @@ Step == /\ l <= Len(Trace)
         /\ l' = l + 1
         /\ IF R.ev = "topo" THEN TopoEv
            ELSE IF R.ev = "skip" THEN UNCHANGED <<topo, J, leg, k, at, st, failed>>
+           ELSE IF R.ev = "panic" THEN   \* the real code crashed: there is no specification action for that
+                /\ PrintT(<<"VERIF-BAD", l, "panic-in:" \o R.where>>)
+                /\ UNCHANGED <<topo, J, leg, k, at, st, failed>>
            ELSE IF R.ev = "reset" THEN Reset
            ELSE IF failed THEN UNCHANGED <<topo, J, leg, k, at, st, failed>>
            ELSE CASE R.ev = "hop" -> Hop
